@@ -1,0 +1,440 @@
+//! Verification hooks (cargo feature `verif`). Nothing in here is compiled
+//! unless the feature is enabled. All switches are thread local so that each
+//! request of the verification worker (one thread per request) is isolated.
+use crate::byte_code::{ByteCode, CaptureIndex, Label, SymbolicByteCode};
+use laythe_core::{
+  object::{Fun, ObjectKind},
+  value::Value,
+  ObjRef,
+};
+use std::cell::Cell;
+
+pub use laythe_core::verif::{
+  gc_counters, set_disabled as set_gc_disabled, set_gc_schedule, GcCounters, GcSchedule, HeapStats,
+};
+
+thread_local! {
+  static CACHES_DISABLED: Cell<bool> = const { Cell::new(false) };
+  static BUDGET: Cell<u64> = const { Cell::new(u64::MAX) };
+  static EXECUTED: Cell<u64> = const { Cell::new(0) };
+  static PEEPHOLE_DISABLED_MASK: Cell<u32> = const { Cell::new(0) };
+}
+
+/// The message used when the instruction budget is exhausted
+pub const BUDGET_MESSAGE: &str = "verif: instruction budget exhausted";
+
+/// Force every inline cache lookup to miss
+pub fn set_caches_disabled(disabled: bool) {
+  CACHES_DISABLED.with(|c| c.set(disabled));
+}
+
+/// Are inline cache lookups forced to miss
+#[inline]
+pub fn caches_disabled() -> bool {
+  CACHES_DISABLED.with(|c| c.get())
+}
+
+/// Set the number of instructions the interpreter may execute on this thread
+pub fn set_instruction_budget(budget: u64) {
+  BUDGET.with(|c| c.set(budget));
+  EXECUTED.with(|c| c.set(0));
+}
+
+/// Number of instructions executed since the budget was last set
+pub fn instructions_executed() -> u64 {
+  EXECUTED.with(|c| c.get())
+}
+
+/// Called at the head of the interpreter loop
+#[inline]
+pub fn tick() {
+  let executed = EXECUTED.with(|c| {
+    let v = c.get() + 1;
+    c.set(v);
+    v
+  });
+  if executed > BUDGET.with(|c| c.get()) {
+    budget_exhausted();
+  }
+}
+
+#[cold]
+#[inline(never)]
+fn budget_exhausted() -> ! {
+  // stop counting so unwinding code cannot re-trigger
+  BUDGET.with(|c| c.set(u64::MAX));
+  panic!("{}", BUDGET_MESSAGE);
+}
+
+/// Peephole rules that can be individually disabled
+pub const RULE_DROP: u32 = 1 << 0;
+pub const RULE_INVOKE: u32 = 1 << 1;
+pub const RULE_INVOKE_SUPER: u32 = 1 << 2;
+pub const RULE_ELIMINATE_DROP: u32 = 1 << 3;
+pub const RULE_LOAD_MULTIPLE: u32 = 1 << 4;
+pub const RULE_DEAD_CODE: u32 = 1 << 5;
+
+/// Disable the peephole rules in mask
+pub fn set_peephole_disabled_mask(mask: u32) {
+  PEEPHOLE_DISABLED_MASK.with(|c| c.set(mask));
+}
+
+/// Does the unread suffix start with the pattern of a rule that is
+/// currently disabled. The patterns mirror the arms of `peephole_optimize`
+pub(crate) fn peephole_rule_disabled(slice: &[SymbolicByteCode]) -> bool {
+  let mask = PEEPHOLE_DISABLED_MASK.with(|c| c.get());
+  if mask == 0 {
+    return false;
+  }
+
+  use SymbolicByteCode as S;
+  let rule = match slice {
+    [S::Drop, S::Drop, ..] => RULE_DROP,
+    [S::GetPropByName(_), S::PropertySlot, S::Call(_), ..] => RULE_INVOKE,
+    [S::GetSuper(_), S::Call(_), ..] => RULE_INVOKE_SUPER,
+    [S::SetLocal(a), S::Drop, S::GetLocal(b), ..] if a == b => RULE_ELIMINATE_DROP,
+    [S::SetBox(a), S::Drop, S::GetBox(b), ..] if a == b => RULE_ELIMINATE_DROP,
+    [S::SetCapture(a), S::Drop, S::GetCapture(b), ..] if a == b => RULE_ELIMINATE_DROP,
+    [S::SetModSym(a), S::Drop, S::GetModSym(b), ..] if a == b => RULE_ELIMINATE_DROP,
+    [S::GetLocal(_), S::GetLocal(_), ..] => RULE_LOAD_MULTIPLE,
+    [S::GetModSym(_), S::GetModSym(_), ..] => RULE_LOAD_MULTIPLE,
+    [S::GetBox(_), S::GetBox(_), ..] => RULE_LOAD_MULTIPLE,
+    [S::GetCapture(_), S::GetCapture(_), ..] => RULE_LOAD_MULTIPLE,
+    [S::Jump(_) | S::Loop(_) | S::Return | S::Raise, ..] => RULE_DEAD_CODE,
+    _ => 0,
+  };
+
+  rule & mask != 0
+}
+
+/// A public mirror of a symbolic instruction: variant name plus up to two operands.
+/// Labels are carried as their id, `CaptureIndex` as (0 = local | 1 = enclosing, index)
+#[derive(Clone, Debug, PartialEq, Eq)]
+pub struct Sym {
+  pub name: String,
+  pub a: u32,
+  pub b: u32,
+}
+
+impl Sym {
+  pub fn new(name: &str, a: u32, b: u32) -> Self {
+    Self {
+      name: name.to_string(),
+      a,
+      b,
+    }
+  }
+}
+
+/// Run the peephole optimiser over a symbolic instruction sequence
+pub fn peephole(instructions: &[Sym], lines: Vec<u16>) -> Result<(Vec<Sym>, Vec<u16>), String> {
+  let mut symbolic = Vec::with_capacity(instructions.len());
+  for sym in instructions {
+    match from_sym(sym) {
+      Some(instruction) => symbolic.push(instruction),
+      None => return Err(format!("unknown instruction {}", sym.name)),
+    }
+  }
+  if symbolic.len() != lines.len() {
+    return Err("instructions and lines differ in length".to_string());
+  }
+
+  let (instructions, lines) = crate::compiler::verif_peephole_optimize(symbolic, lines);
+  Ok((instructions.iter().map(to_sym).collect(), lines))
+}
+
+/// Encoded length and declared stack effect of an instruction
+pub fn sym_len_and_effect(sym: &Sym) -> Option<(usize, i32)> {
+  from_sym(sym).map(|i| (i.len(), i.stack_effect()))
+}
+
+/// The (name, byte) table of the encoded byte codes
+pub fn byte_code_table() -> Vec<(String, u8)> {
+  (0..ByteCode::VARIANT_COUNT as u8)
+    .map(|byte| {
+      (
+        format!("{:?}", unsafe { ByteCode::from_byte_unchecked(byte) }),
+        byte,
+      )
+    })
+    .collect()
+}
+
+/// A constant in a functions constant table
+#[derive(Clone, Debug)]
+pub enum ConstDump {
+  Nil,
+  Bool(bool),
+  Num(f64),
+  Str(String),
+  /// A nested function given as an index into `CompileDump::funs`
+  Fun(usize),
+  /// Some other object kind
+  Other(String),
+}
+
+/// Everything the compiler produced for one function
+#[derive(Clone, Debug)]
+pub struct FunDump {
+  pub name: String,
+  pub arity_kind: u8,
+  pub arity_min: u8,
+  pub arity_max: u8,
+  pub parameter_count: u8,
+  pub max_slots: usize,
+  pub capture_count: usize,
+  pub module_id: usize,
+  pub code: Vec<u8>,
+  pub lines: Vec<u16>,
+  pub constants: Vec<ConstDump>,
+}
+
+/// Every function of one compiled module. The script is `funs[0]`
+#[derive(Clone, Debug)]
+pub struct CompileDump {
+  pub funs: Vec<FunDump>,
+  pub property_slots: usize,
+  pub invoke_slots: usize,
+}
+
+/// Dump a compiled script and all functions nested in it
+pub(crate) fn dump_fun(script: ObjRef<Fun>) -> Vec<FunDump> {
+  let mut funs: Vec<FunDump> = vec![];
+  let mut queue: Vec<ObjRef<Fun>> = vec![script];
+  let mut index = 0;
+
+  while index < queue.len() {
+    let fun = queue[index];
+    index += 1;
+
+    let chunk = fun.chunk();
+    let constants = chunk
+      .verif_constants()
+      .iter()
+      .map(|constant| dump_constant(*constant, &mut queue))
+      .collect();
+
+    let (arity_kind, arity_min, arity_max) = fun.verif_arity();
+    funs.push(FunDump {
+      name: fun.name().to_string(),
+      arity_kind,
+      arity_min,
+      arity_max,
+      parameter_count: fun.parameter_count(),
+      max_slots: fun.max_slots(),
+      capture_count: fun.capture_count(),
+      module_id: fun.module_id(),
+      code: chunk.instructions().to_vec(),
+      lines: chunk.verif_lines().to_vec(),
+      constants,
+    });
+  }
+
+  funs
+}
+
+fn dump_constant(constant: Value, queue: &mut Vec<ObjRef<Fun>>) -> ConstDump {
+  if constant.is_nil() {
+    ConstDump::Nil
+  } else if constant.is_bool() {
+    ConstDump::Bool(constant.to_bool())
+  } else if constant.is_num() {
+    ConstDump::Num(constant.to_num())
+  } else if constant.is_obj() {
+    let obj = constant.to_obj();
+    match obj.kind() {
+      ObjectKind::String => ConstDump::Str(obj.to_str().to_string()),
+      ObjectKind::Fun => {
+        let fun = obj.to_fun();
+        match queue.iter().position(|f| *f == fun) {
+          Some(position) => ConstDump::Fun(position),
+          None => {
+            queue.push(fun);
+            ConstDump::Fun(queue.len() - 1)
+          },
+        }
+      },
+      kind => ConstDump::Other(format!("{kind:?}")),
+    }
+  } else {
+    ConstDump::Other("undefined".to_string())
+  }
+}
+
+/// Convert the private symbolic instruction into its public mirror
+pub(crate) fn to_sym(instruction: &SymbolicByteCode) -> Sym {
+  match instruction {
+    SymbolicByteCode::Return => Sym::new("Return", 0, 0),
+    SymbolicByteCode::Negate => Sym::new("Negate", 0, 0),
+    SymbolicByteCode::Add => Sym::new("Add", 0, 0),
+    SymbolicByteCode::Subtract => Sym::new("Subtract", 0, 0),
+    SymbolicByteCode::Multiply => Sym::new("Multiply", 0, 0),
+    SymbolicByteCode::Divide => Sym::new("Divide", 0, 0),
+    SymbolicByteCode::Not => Sym::new("Not", 0, 0),
+    SymbolicByteCode::And(l) => Sym::new("And", l.val(), 0),
+    SymbolicByteCode::Or(l) => Sym::new("Or", l.val(), 0),
+    SymbolicByteCode::Constant(a) => Sym::new("Constant", *a as u32, 0),
+    SymbolicByteCode::ConstantLong(a) => Sym::new("ConstantLong", *a as u32, 0),
+    SymbolicByteCode::Nil => Sym::new("Nil", 0, 0),
+    SymbolicByteCode::True => Sym::new("True", 0, 0),
+    SymbolicByteCode::False => Sym::new("False", 0, 0),
+    SymbolicByteCode::List(a) => Sym::new("List", *a as u32, 0),
+    SymbolicByteCode::Tuple(a) => Sym::new("Tuple", *a as u32, 0),
+    SymbolicByteCode::Map(a) => Sym::new("Map", *a as u32, 0),
+    SymbolicByteCode::Launch(a) => Sym::new("Launch", *a as u32, 0),
+    SymbolicByteCode::Channel => Sym::new("Channel", 0, 0),
+    SymbolicByteCode::BufferedChannel => Sym::new("BufferedChannel", 0, 0),
+    SymbolicByteCode::Receive => Sym::new("Receive", 0, 0),
+    SymbolicByteCode::Send => Sym::new("Send", 0, 0),
+    SymbolicByteCode::Interpolate(a) => Sym::new("Interpolate", *a as u32, 0),
+    SymbolicByteCode::IterNext(a) => Sym::new("IterNext", *a as u32, 0),
+    SymbolicByteCode::IterCurrent(a) => Sym::new("IterCurrent", *a as u32, 0),
+    SymbolicByteCode::Drop => Sym::new("Drop", 0, 0),
+    SymbolicByteCode::DropN(a) => Sym::new("DropN", *a as u32, 0),
+    SymbolicByteCode::Dup => Sym::new("Dup", 0, 0),
+    SymbolicByteCode::Import(a) => Sym::new("Import", *a as u32, 0),
+    SymbolicByteCode::ImportSym((a, b)) => Sym::new("ImportSym", *a as u32, *b as u32),
+    SymbolicByteCode::Export(a) => Sym::new("Export", *a as u32, 0),
+    SymbolicByteCode::LoadGlobal(a) => Sym::new("LoadGlobal", *a as u32, 0),
+    SymbolicByteCode::DeclareModSym((a, b)) => Sym::new("DeclareModSym", *a as u32, *b as u32),
+    SymbolicByteCode::GetModSym(a) => Sym::new("GetModSym", *a as u32, 0),
+    SymbolicByteCode::SetModSym(a) => Sym::new("SetModSym", *a as u32, 0),
+    SymbolicByteCode::Box(a) => Sym::new("Box", *a as u32, 0),
+    SymbolicByteCode::EmptyBox => Sym::new("EmptyBox", 0, 0),
+    SymbolicByteCode::FillBox => Sym::new("FillBox", 0, 0),
+    SymbolicByteCode::GetBox(a) => Sym::new("GetBox", *a as u32, 0),
+    SymbolicByteCode::SetBox(a) => Sym::new("SetBox", *a as u32, 0),
+    SymbolicByteCode::GetLocal(a) => Sym::new("GetLocal", *a as u32, 0),
+    SymbolicByteCode::SetLocal(a) => Sym::new("SetLocal", *a as u32, 0),
+    SymbolicByteCode::GetCapture(a) => Sym::new("GetCapture", *a as u32, 0),
+    SymbolicByteCode::SetCapture(a) => Sym::new("SetCapture", *a as u32, 0),
+    SymbolicByteCode::GetPropByName(a) => Sym::new("GetPropByName", *a as u32, 0),
+    SymbolicByteCode::SetPropByName(a) => Sym::new("SetPropByName", *a as u32, 0),
+    SymbolicByteCode::GetProp(a) => Sym::new("GetProp", *a as u32, 0),
+    SymbolicByteCode::SetProp(a) => Sym::new("SetProp", *a as u32, 0),
+    SymbolicByteCode::JumpIfFalse(l) => Sym::new("JumpIfFalse", l.val(), 0),
+    SymbolicByteCode::Jump(l) => Sym::new("Jump", l.val(), 0),
+    SymbolicByteCode::Loop(l) => Sym::new("Loop", l.val(), 0),
+    SymbolicByteCode::PushHandler((a, l)) => Sym::new("PushHandler", *a as u32, l.val()),
+    SymbolicByteCode::CheckHandler(l) => Sym::new("CheckHandler", l.val(), 0),
+    SymbolicByteCode::GetError => Sym::new("GetError", 0, 0),
+    SymbolicByteCode::FinishUnwind => Sym::new("FinishUnwind", 0, 0),
+    SymbolicByteCode::ContinueUnwind => Sym::new("ContinueUnwind", 0, 0),
+    SymbolicByteCode::PopHandler => Sym::new("PopHandler", 0, 0),
+    SymbolicByteCode::Raise => Sym::new("Raise", 0, 0),
+    SymbolicByteCode::Label(l) => Sym::new("Label", l.val(), 0),
+    SymbolicByteCode::ArgumentDelimiter => Sym::new("ArgumentDelimiter", 0, 0),
+    SymbolicByteCode::Call(a) => Sym::new("Call", *a as u32, 0),
+    SymbolicByteCode::Invoke((a, b)) => Sym::new("Invoke", *a as u32, *b as u32),
+    SymbolicByteCode::SuperInvoke((a, b)) => Sym::new("SuperInvoke", *a as u32, *b as u32),
+    SymbolicByteCode::Closure(a) => Sym::new("Closure", *a as u32, 0),
+    SymbolicByteCode::Method(a) => Sym::new("Method", *a as u32, 0),
+    SymbolicByteCode::Field(a) => Sym::new("Field", *a as u32, 0),
+    SymbolicByteCode::StaticMethod(a) => Sym::new("StaticMethod", *a as u32, 0),
+    SymbolicByteCode::Class(a) => Sym::new("Class", *a as u32, 0),
+    SymbolicByteCode::Inherit => Sym::new("Inherit", 0, 0),
+    SymbolicByteCode::GetSuper(a) => Sym::new("GetSuper", *a as u32, 0),
+    SymbolicByteCode::CaptureIndex(index) => match index {
+      CaptureIndex::Local(i) => Sym::new("CaptureIndex", 0, *i as u32),
+      CaptureIndex::Enclosing(i) => Sym::new("CaptureIndex", 1, *i as u32),
+    },
+    SymbolicByteCode::InvokeSlot => Sym::new("InvokeSlot", 0, 0),
+    SymbolicByteCode::PropertySlot => Sym::new("PropertySlot", 0, 0),
+    SymbolicByteCode::Equal => Sym::new("Equal", 0, 0),
+    SymbolicByteCode::NotEqual => Sym::new("NotEqual", 0, 0),
+    SymbolicByteCode::Greater => Sym::new("Greater", 0, 0),
+    SymbolicByteCode::GreaterEqual => Sym::new("GreaterEqual", 0, 0),
+    SymbolicByteCode::Less => Sym::new("Less", 0, 0),
+    SymbolicByteCode::LessEqual => Sym::new("LessEqual", 0, 0),
+  }
+}
+
+/// Convert the public mirror into the private symbolic instruction
+pub(crate) fn from_sym(sym: &Sym) -> Option<SymbolicByteCode> {
+  Some(match sym.name.as_str() {
+    "Return" => SymbolicByteCode::Return,
+    "Negate" => SymbolicByteCode::Negate,
+    "Add" => SymbolicByteCode::Add,
+    "Subtract" => SymbolicByteCode::Subtract,
+    "Multiply" => SymbolicByteCode::Multiply,
+    "Divide" => SymbolicByteCode::Divide,
+    "Not" => SymbolicByteCode::Not,
+    "And" => SymbolicByteCode::And(Label::new(sym.a)),
+    "Or" => SymbolicByteCode::Or(Label::new(sym.a)),
+    "Constant" => SymbolicByteCode::Constant(sym.a as u8),
+    "ConstantLong" => SymbolicByteCode::ConstantLong(sym.a as u16),
+    "Nil" => SymbolicByteCode::Nil,
+    "True" => SymbolicByteCode::True,
+    "False" => SymbolicByteCode::False,
+    "List" => SymbolicByteCode::List(sym.a as u16),
+    "Tuple" => SymbolicByteCode::Tuple(sym.a as u16),
+    "Map" => SymbolicByteCode::Map(sym.a as u16),
+    "Launch" => SymbolicByteCode::Launch(sym.a as u8),
+    "Channel" => SymbolicByteCode::Channel,
+    "BufferedChannel" => SymbolicByteCode::BufferedChannel,
+    "Receive" => SymbolicByteCode::Receive,
+    "Send" => SymbolicByteCode::Send,
+    "Interpolate" => SymbolicByteCode::Interpolate(sym.a as u16),
+    "IterNext" => SymbolicByteCode::IterNext(sym.a as u16),
+    "IterCurrent" => SymbolicByteCode::IterCurrent(sym.a as u16),
+    "Drop" => SymbolicByteCode::Drop,
+    "DropN" => SymbolicByteCode::DropN(sym.a as u8),
+    "Dup" => SymbolicByteCode::Dup,
+    "Import" => SymbolicByteCode::Import(sym.a as u16),
+    "ImportSym" => SymbolicByteCode::ImportSym((sym.a as u16, sym.b as u16)),
+    "Export" => SymbolicByteCode::Export(sym.a as u16),
+    "LoadGlobal" => SymbolicByteCode::LoadGlobal(sym.a as u16),
+    "DeclareModSym" => SymbolicByteCode::DeclareModSym((sym.a as u16, sym.b as u16)),
+    "GetModSym" => SymbolicByteCode::GetModSym(sym.a as u16),
+    "SetModSym" => SymbolicByteCode::SetModSym(sym.a as u16),
+    "Box" => SymbolicByteCode::Box(sym.a as u8),
+    "EmptyBox" => SymbolicByteCode::EmptyBox,
+    "FillBox" => SymbolicByteCode::FillBox,
+    "GetBox" => SymbolicByteCode::GetBox(sym.a as u8),
+    "SetBox" => SymbolicByteCode::SetBox(sym.a as u8),
+    "GetLocal" => SymbolicByteCode::GetLocal(sym.a as u8),
+    "SetLocal" => SymbolicByteCode::SetLocal(sym.a as u8),
+    "GetCapture" => SymbolicByteCode::GetCapture(sym.a as u8),
+    "SetCapture" => SymbolicByteCode::SetCapture(sym.a as u8),
+    "GetPropByName" => SymbolicByteCode::GetPropByName(sym.a as u16),
+    "SetPropByName" => SymbolicByteCode::SetPropByName(sym.a as u16),
+    "GetProp" => SymbolicByteCode::GetProp(sym.a as u16),
+    "SetProp" => SymbolicByteCode::SetProp(sym.a as u16),
+    "JumpIfFalse" => SymbolicByteCode::JumpIfFalse(Label::new(sym.a)),
+    "Jump" => SymbolicByteCode::Jump(Label::new(sym.a)),
+    "Loop" => SymbolicByteCode::Loop(Label::new(sym.a)),
+    "PushHandler" => SymbolicByteCode::PushHandler((sym.a as u16, Label::new(sym.b))),
+    "CheckHandler" => SymbolicByteCode::CheckHandler(Label::new(sym.a)),
+    "GetError" => SymbolicByteCode::GetError,
+    "FinishUnwind" => SymbolicByteCode::FinishUnwind,
+    "ContinueUnwind" => SymbolicByteCode::ContinueUnwind,
+    "PopHandler" => SymbolicByteCode::PopHandler,
+    "Raise" => SymbolicByteCode::Raise,
+    "Label" => SymbolicByteCode::Label(Label::new(sym.a)),
+    "ArgumentDelimiter" => SymbolicByteCode::ArgumentDelimiter,
+    "Call" => SymbolicByteCode::Call(sym.a as u8),
+    "Invoke" => SymbolicByteCode::Invoke((sym.a as u16, sym.b as u8)),
+    "SuperInvoke" => SymbolicByteCode::SuperInvoke((sym.a as u16, sym.b as u8)),
+    "Closure" => SymbolicByteCode::Closure(sym.a as u16),
+    "Method" => SymbolicByteCode::Method(sym.a as u16),
+    "Field" => SymbolicByteCode::Field(sym.a as u16),
+    "StaticMethod" => SymbolicByteCode::StaticMethod(sym.a as u16),
+    "Class" => SymbolicByteCode::Class(sym.a as u16),
+    "Inherit" => SymbolicByteCode::Inherit,
+    "GetSuper" => SymbolicByteCode::GetSuper(sym.a as u16),
+    "CaptureIndex" => SymbolicByteCode::CaptureIndex(if sym.a == 0 {
+      CaptureIndex::Local(sym.b as u8)
+    } else {
+      CaptureIndex::Enclosing(sym.b as u8)
+    }),
+    "InvokeSlot" => SymbolicByteCode::InvokeSlot,
+    "PropertySlot" => SymbolicByteCode::PropertySlot,
+    "Equal" => SymbolicByteCode::Equal,
+    "NotEqual" => SymbolicByteCode::NotEqual,
+    "Greater" => SymbolicByteCode::Greater,
+    "GreaterEqual" => SymbolicByteCode::GreaterEqual,
+    "Less" => SymbolicByteCode::Less,
+    "LessEqual" => SymbolicByteCode::LessEqual,
+    _ => return None,
+  })
+}
